@@ -615,6 +615,13 @@ func C18() *sim.Check {
 				c.St.Add("lock_contentions", res.Contentions)
 				c.St.Add("fired_preemption_at_yield_point", res.Switches)
 				c.St.Add("fired_lock_contention", res.Contentions)
+				if res.Parks > 0 {
+					c.St.Add("fired_blocking_operation_parked", res.Parks)
+				}
+				if res.Timers > 0 {
+					c.St.Add("library_timers_set", res.Timers)
+					c.St.Add("fired_timer_at_once", res.TimersFired)
+				}
 				c.St.Add("probe_switch_with_another_task_inside_library", res.Overlaps)
 				c.St.Print(res.Trace)
 				if res.Switches > 0 && len(tasks) >= 2 {
